@@ -252,12 +252,70 @@ def r_candidates(ctx, rid="C10.candidates"):
                           % (name, res, idx, "Ok(true)" if want_ok else "Ok(false)", want_idx))
 
 
+def r_probectx(ctx, rid="C10.probectx"):
+    ctx.rule(rid, "CBOR single_pair_validates_entry (the compatibility probe of the reassignment search): the candidate validator evaluates "
+                  "the member with the generic arguments recorded with the claim — also when the claim was made by an earlier use of the "
+                  "generic rule that is being evaluated again with other arguments (`{ g<tstr, any>, g<tstr, int> }`); otherwise which pair "
+                  "a member accepts depends on which use is current, i.e. on the order of the map's entries (abstract evaluation, the "
+                  "member visit scripted and the generic state it sees observed)", floor=3)
+    f = ctx.facts
+    file, ty = vt.VIS["cbor"]
+    ARG_CLAIM, ARG_NOW = ("arg", "any"), ("arg", "int")
+
+    def grule(args):
+        return ("enum", "GenericRule", {"name": ("str", "g"), "params": MutList([("str", "V")]), "args": MutList(list(args))})
+    for label, current_rule, ctx_rule in (("claim of the rule being evaluated, other arguments", "g", "g"),
+                                          ("claim of another generic rule", "h", "g"),
+                                          ("no generic context", "g", None)):
+        st = ("enum", "ValidationState", {"generic_rules": MutList([grule([ARG_NOW])]), "eval_generic_rule": ("Some", ("str", current_rule)),
+                                          "is_multi_type_choice": False, "is_multi_group_choice": False, "type_group_name_entry": ("None",),
+                                          "visited_rules": absint.PyMap(), "cddl": OPAQUE, "enabled_features": ("None",)})
+        selfo = ("enum", "Self", {"state": st, "errors": MutList(), "single_entry_claims": MutList(), "cbor": OPAQUE})
+        seen = []
+
+        def new(run, it, node, recv=None):
+            cst = ("enum", "ValidationState", {"generic_rules": MutList(), "eval_generic_rule": ("None",), "is_multi_type_choice": False,
+                                               "is_multi_group_choice": False, "type_group_name_entry": ("None",), "visited_rules": absint.PyMap()})
+            return ("enum", "Self", {"state": cst, "errors": MutList(), "single_entry_claims": MutList([OPAQUE]), "probing_single_entry_assignment": False})
+
+        def visit_entry(run, it, node, recv, seen=seen):
+            cst = recv[2]["state"][2]
+            rules = cst.get("generic_rules")
+            args = None
+            if isinstance(rules, (list, MutList)):
+                for r in rules:
+                    if isinstance(r, tuple) and r[2].get("name") == ("str", "g"):
+                        args = list(r[2]["args"])
+            seen.append((cst.get("eval_generic_rule"), args))
+            return ("Ok", ("tuple", []))
+        gc = ("None",) if ctx_rule is None else ("Some", ("enum", "GenericEvaluationContext", {"rule_name": ("str", ctx_rule), "args": MutList([ARG_CLAIM])}))
+        run = vt.ObjRun(f, file, ty, inline={"new_with_recursion_state"}, scripts={"visit_value_member_key_entry": visit_entry, "CBORValidator::new": new})
+        fi = run.fn("single_pair_validates_entry")
+        try:
+            res = run.call("single_pair_validates_entry", selfo, {"entry": ("enum", "ValueMemberKeyEntry", {"occur": ("None",)}), "generic_context": gc,
+                                                                   "key": ("str", "k"), "value": ("str", "v")})
+        except absint.Unknown as e:
+            ctx.incomplete_msg(rid, "%s: %s" % (label, e))
+            continue
+        ctx.site(rid, label, file, fi.line, {"result": repr(res)[:30], "member_visit_sees": [(repr(a), repr(b)) for a, b in seen]})
+        if len(seen) != 1:
+            ctx.violation(rid, label.split(",")[0] + "|visits", file, fi.line, "%s: the member is visited %d times by the probe" % (label, len(seen)))
+            continue
+        ev, args = seen[0]
+        want_ev = ("None",) if ctx_rule is None else ("Some", ("str", ctx_rule))
+        want_args = [ARG_NOW] if ctx_rule is None else [ARG_CLAIM]
+        if ev != want_ev or args != want_args:
+            ctx.violation(rid, label.split(",")[0], file, fi.line, "%s: the probe evaluates the member with generic context %r and arguments %r of g; "
+                          "the claim was recorded with context %r and arguments %r" % (label, ev, args, want_ev, want_args))
+
+
 def run(ctx):
     ctx.guarded("C10.jsonorder", r_jsonorder)
     ctx.guarded("C10.ledger", r_ledger)
     ctx.guarded("C10.occreset", r_occreset)
     ctx.guarded("C10.reassign", r_reassign)
     ctx.guarded("C10.candidates", r_candidates)
+    ctx.guarded("C10.probectx", r_probectx)
 
 
 def child_obj():
